@@ -26,7 +26,7 @@ DEFAULTS = dict(
     wsgiOptionsMethod='', wsgiOptionsStatus='', wsgiOptionsHeaders=[], wsgiGetMethods=[],
     wsgi405Status='', wsgi405Headers=[], faviconPath='', faviconStatus='', faviconHeaders=[],
     asgiAcceptName='', asgiAcceptEncodingName='', asgiJoin='', asgiNameLowered=False, asgiQueryDecoded=False,
-    asgiQueryCodec='', asgiHeaderCodec='',
+    asgiQueryCodec='', asgiHeaderCodec='', asgiParseEncoding='', asgiParseErrors='', asgiParseDefault=False,
     handlerAcceptName='', handlerAcceptEncodingName='', handlerDisableCompression=False,
 )
 
@@ -97,6 +97,10 @@ def _emit(v, fails):
     out += '-- codecs: canonical names "utf-8" | "latin-1"; query codec is "" when the query string is not decoded\n'
     out += 'def asgiQueryCodec : List Char := %s\n' % chars(v['asgiQueryCodec'])
     out += 'def asgiHeaderCodec : List Char := %s\n' % chars(v['asgiHeaderCodec'])
+    out += '-- parse_qs(…, encoding=E, errors=R) in asgi.py: "" = argument absent; asgiParseDefault = both absent or the defaults utf-8 / replace\n'
+    out += 'def asgiParseEncoding : List Char := %s\n' % chars(v['asgiParseEncoding'])
+    out += 'def asgiParseErrors : List Char := %s\n' % chars(v['asgiParseErrors'])
+    out += 'def asgiParseDefault : Bool := %s\n' % _b(v['asgiParseDefault'])
     out += '-- MetricsHandler.do_GET\n'
     out += 'def handlerAcceptName : List Char := %s\n' % chars(v['handlerAcceptName'])
     out += 'def handlerAcceptEncodingName : List Char := %s\n' % chars(v['handlerAcceptEncodingName'])
@@ -385,8 +389,18 @@ def _site_asgi(tree, v):
     f = find_func(ast.Module(body=outer.body, type_ignores=[]), 'prometheus_app')
     a = _assigns(f.body)
     pn = a.get('params')
-    if not (isinstance(pn, ast.Call) and ast.unparse(pn.func) == 'parse_qs' and len(pn.args) == 1 and not pn.keywords):
+    if not (isinstance(pn, ast.Call) and ast.unparse(pn.func) == 'parse_qs' and len(pn.args) == 1):
         raise Fail('params = parse_qs(…) expected')
+    # percent-decoding arguments of parse_qs are data: encoding= / errors= (defaults 'utf-8' / 'replace')
+    for kw in pn.keywords:
+        if kw.arg == 'encoding':
+            e = const(kw.value, str).lower()
+            v['asgiParseEncoding'] = _CODECS.get(e, e)
+        elif kw.arg == 'errors':
+            v['asgiParseErrors'] = const(kw.value, str)
+        else:
+            raise Fail('parse_qs keyword %s not understood' % kw.arg)
+    v['asgiParseDefault'] = v['asgiParseEncoding'] in ('', 'utf-8') and v['asgiParseErrors'] in ('', 'replace')
     qarg = pn.args[0]
     if ast.unparse(qarg) == "scope.get('query_string', b'')":
         v['asgiQueryDecoded'] = False
